@@ -1,7 +1,7 @@
 """C06 set-algebra laws (partly decided; the empty-operand / disjoint-boxes clause fully, for finite coordinates):
 L-empty chain (initial boxes, boxes written only per non-collapsed edge, strict shortcut test, trivial result table),
 L-symmetric (selection / transition tables of Intersection, Union, Xor do not read is_subject), L-self (twin typing)."""
-from rules import booltables as bt, oprules, fillrules, pirules, oracle
+from rules import booltables as bt, oprules, fillrules, pirules, oracle, sweeprules
 
 LEVEL = 'other'
 EXPLANATION = __doc__
@@ -42,3 +42,5 @@ def run(ctx, rep):
     # L-self: coincident twins
     pirules.check_code(ctx, rep, rule='T-type')
     bt.check_trans(ctx, rep, 'T-trans-coincident', ['SameTransition', 'DifferentTransition'])
+    # coincident twins found late are re-classified bottom-to-top (both operand orders go through this protocol)
+    sweeprules.check_loop(ctx, rep, rule_neigh='S-neigh', rule_recompute='S-recompute')
